@@ -107,11 +107,18 @@ def run(chk):
                 continue
             if kind == 'critical' and ch != 'path':
                 continue   # the last-resort page shows PATH_INFO only
-            for want_json in ((False, True) if rng.random() < 0.3 else (False,)):
-                if want_json and ch == 'path' and False:
-                    continue
+            # JSON documents: always for text that needs JSON escaping (backslash, quote), sampled otherwise
+            for want_json in ((False, True) if (rng.random() < 0.3 or '\\' in pl or '"' in pl) else (False,)):
                 recs.append(request(apps, kind, ch, pl, want_json))
                 chk.count(1, (kind, ch, pl, want_json))
+    # JSON error documents with text that must be escaped in JSON but means nothing to HTML (control characters, backslash sequences)
+    for pl in ['C:\\docs\\x', '\\d+', '\\', 'a\\', '\\"', '\tq', 'a\nb', '\x01', '\x1f', '\x7f', '\\u0041', '\\n', '"}', '", "x": "']:
+        for kind in ('404', '405', '500', '400', '413'):
+            for ch in ('query', 'host'):
+                if ch == 'host' and any(ord(c) < 32 for c in pl):
+                    continue
+                recs.append(request(apps, kind, ch, pl, True))
+                chk.count(1, (kind, ch, pl, True))
     # the stale-request situation: every error kind directly after a request with other markup in it
     for _ in range(300 if thorough else 60):
         a = request(apps, rng.choice(['404', '500', '405']), rng.choice(['query', 'host']), rng.choice(EXTRA), False)
